@@ -105,16 +105,40 @@ pub fn lookup_scenario(r: &mut Report, seed: u64) {
         }
     }
     let delays: Vec<u64> = (0..n).map(|_| *rng.pick(&[0u64, 0, 20 * MS, 60 * MS, 120 * MS, 200 * MS, 300 * MS])).collect();
+    // some replicas list a contact nobody can be sent to next to their item (port 0, the broadcast address): the
+    // item travels in the same datagram and was delivered all the same
+    let odd_contact: Vec<u8> = (0..n).map(|_| if rng.chance(1, 4) { 1 + rng.usize(2) as u8 } else { 0 }).collect();
+    if odd_contact.iter().any(|o| *o != 0) {
+        r.count("lookup_worlds_with_an_unsendable_contact_next_to_an_item");
+    }
+    let put_seen = std::rc::Rc::new(std::cell::Cell::new(false));
     let case = json!({"class":"lookup","seed":seed.to_string(),"replicas":n,"held": held.iter().zip(&shape).zip(&delays).map(|((h, s), d)| match h { Some(i) => json!({"seq": i.seq().to_string(), "v": crate::bencode::hex(i.value()), "delay_ms": d / MS}), None => json!({"other_shape": s, "delay_ms": d / MS}) }).collect::<Vec<_>>()});
     {
         let (ends2, socks2, held2, shape2, delays2) = (ends.clone(), socks.clone(), held.clone(), shape.clone(), delays.clone());
+        let odd2 = odd_contact.clone();
+        let put_seen2 = put_seen.clone();
         w.set_responder(Some(Box::new(move |w, sock, d| {
             let Some(i) = socks2.iter().position(|s| *s == sock) else { return false };
             let Some(q) = Krpc::parse(&d.bytes) else { return true };
             if q.y != b'q' {
                 return true;
             }
-            let mut rd = vec![("id", B::bytes(&ends2[i].0)), ("nodes", B::Bytes(nodes_bytes(&ends2)))];
+            let mut list = ends2.clone();
+            if odd2[i] != 0 {
+                let mut id = target;
+                id[19] ^= 0x10 + i as u8;
+                let addr = if odd2[i] == 1 { SocketAddrV4::new(Ipv4Addr::new(53, 0, 7, 1 + i as u8), 0) } else { SocketAddrV4::new(Ipv4Addr::BROADCAST, 6881) };
+                list.insert(i % (list.len() + 1), (id, addr));
+            }
+            if q.is_query("put") {
+                // nobody acknowledges a write in these worlds: a put of the application stays in its store phase
+                put_seen2.set(true);
+                return true;
+            }
+            let mut rd = vec![("id", B::bytes(&ends2[i].0)), ("nodes", B::Bytes(nodes_bytes(&list)))];
+            if q.is_query("get") && q.target() != Some(target) {
+                rd.push(("token", B::bytes(b"tokn")));
+            }
             let mut bytes = None;
             if q.is_query("get") && q.target() == Some(target) {
                 rd.push(("token", B::bytes(b"tokn")));
@@ -145,6 +169,21 @@ pub fn lookup_scenario(r: &mut Report, seed: u64) {
     w.block_on(x.adht.bootstrapped(), 60 * SEC);
     let genuine: Vec<&MutableItem> = held.iter().flatten().collect();
     let want = oracle(&genuine);
+    // in a quarter of the worlds the application has a put (of something else) in its store phase when the lookup
+    // starts: its store requests are out and unanswered, the lookup's requests are the next ones the node sends
+    let _pending_put = if rng.chance(1, 4) {
+        let a = x.adht.clone();
+        let v = rng.blob(5, 40);
+        let t = Task::new(w.now(), async move { a.put_immutable(&v).await.is_ok() });
+        let seen = put_seen.clone();
+        w.run_until(10 * SEC, |_| seen.get());
+        if put_seen.get() {
+            r.count("lookup_worlds_with_a_put_in_its_store_phase");
+        }
+        Some(t)
+    } else {
+        None
+    };
     // callers: the first one, then joiners after 30..450 ms (sync flavour on helper threads for a third of the worlds)
     let sync = rng.chance(1, 3);
     let mut starts = vec![0u64];
